@@ -70,6 +70,12 @@ Inductive c19_case :=
 | CSplit (t : rtext) (obs : list rtext) (py : list rtext)
   (* indent(t, margin, newline) *)
 | CIndent (t margin newline : rtext) (obs : rtext)
+  (* the CPython primitives the model is written in, observed directly on a byte string c:
+     c.splitlines(); list(io.BytesIO(c)); c.lstrip(); c.decode('utf-8') (None = UnicodeDecodeError) and, when it
+     decodes to t: list(TextIOWrapper(BytesIO(c), encoding='utf-8')); t.lstrip().  No property here (holds = true):
+     agree ties Spec.splitlines / Model.file_iter_* / py_lstrip / Lib.utf8_decode to the interpreter. *)
+| CPrim (c : rtext) (bsplit biter : list rtext) (blstrip : rtext) (dec : option rtext)
+        (titer : option (list rtext)) (tlstrip : option rtext)
   (* list(reverse_iter_lines(f, blocksize)) for each listed blocksize on a fresh file object with
      content c; pos = Some p: preseek=False with the cursor at p *)
 | CRev (c : rtext) (m : fmode) (pos : option N) (runs : list (N * res (list rtext)))
@@ -152,6 +158,19 @@ Definition c19_verdict (k : c19_case) : verdict :=
       let n := expand rn in
       let obs := expand robs in
       (text_eqb (indent gen_breaks t m n) obs, text_eqb obs (indent_spec t m n), false)
+  | CPrim rc bsplit biter blstrip dec titer tlstrip =>
+      let c := expand rc in
+      let agree :=
+        lines_eqb (bytes_splitlines c) (xlines bsplit)
+        && lines_eqb (file_iter_bin c) (xlines biter)
+        && text_eqb (py_lstrip is_ws_bytes c) (expand blstrip)
+        && option_eqb text_eqb (utf8_decode c) (option_map expand dec)
+        && match utf8_decode c with
+           | Some t => option_eqb lines_eqb (Some (file_iter_text t)) (option_map xlines titer)
+                       && option_eqb text_eqb (Some (py_lstrip is_ws_str t)) (option_map expand tlstrip)
+           | None => match titer, tlstrip with None, None => true | _, _ => false end
+           end in
+      (agree, true, false)
   | CRev rc m pos rruns =>
       let c := expand rc in
       let p := pos_of c pos in
@@ -178,6 +197,7 @@ Definition c19_verdict (k : c19_case) : verdict :=
 Inductive c19_expl :=
 | XSplit (model spec : list text)
 | XIndent (model spec : text)
+| XPrim (bsplit biter : list text) (blstrip : text) (dec : option text) (titer : option (list text)) (tlstrip : option text)
 | XRev (model : list (nat * res (list text))) (domain : bool) (spec : list text)
 | XJsonl (inside : bool) (mfwd mrev : res (list jval * bool)).
 
@@ -186,6 +206,10 @@ Definition c19_explain (k : c19_case) : c19_expl :=
   | CSplit rt _ _ => let t := expand rt in XSplit (iter_splitlines gen_breaks t) (iter_splitlines_spec t)
   | CIndent rt rm rn _ =>
       XIndent (indent gen_breaks (expand rt) (expand rm) (expand rn)) (indent_spec (expand rt) (expand rm) (expand rn))
+  | CPrim rc _ _ _ _ _ _ =>
+      let c := expand rc in
+      XPrim (bytes_splitlines c) (file_iter_bin c) (py_lstrip is_ws_bytes c) (utf8_decode c)
+            (option_map file_iter_text (utf8_decode c)) (option_map (py_lstrip is_ws_str) (utf8_decode c))
   | CRev rc m pos rruns =>
       let c := expand rc in
       let p := pos_of c pos in
